@@ -51,7 +51,8 @@ def solve_hungarian(
     minimize: bool = True,
 ) -> Result:
     if not cost_matrix or not cost_matrix[0]:
-        return Result([], 0.0, 0, 0)
+        # nothing to match: every row (if any) stays unassigned
+        return Result([-1] * len(cost_matrix), 0.0, 0, 0)
 
     n_rows = len(cost_matrix)
     n_cols = len(cost_matrix[0])
